@@ -31,6 +31,9 @@ func (p *c19) RunCase(ctx *runner.Ctx) runner.CaseResult {
 	x := newRes()
 	r := mon.Rng(ctx.Seed, "C19", ctx.Case)
 	adapter := adapt.Adapters[ctx.Case%2]
+	if ctx.Case < 2 {
+		p.retryUnprocessed(x, adapter)
+	}
 	specs := []adapt.TableSpec{ixSpec("tba19", true), mon.SpecHashOnly("tbb19"), mon.SpecHashRange("tbc19")}
 	specs = specs[:1+r.Intn(3)]
 	cl, m, ds := freshClient(adapter, specs...)
@@ -423,3 +426,72 @@ func (p *c19) RunCase(ctx *runner.Ctx) runner.CaseResult {
 }
 
 var _ = model.New
+
+// retryUnprocessed: the retry loop of the SDK documentation. While a failure is emulated a BatchWriteItem hands its
+// requests back as UnprocessedItems (or fails as a whole); the caller sends that very map - the object of the response
+// - as the RequestItems of the next call once the failure is over. A call that then reports success with nothing
+// unprocessed has performed every request: the tables equal those of a twin that got the requests one by one.
+func (p *c19) retryUnprocessed(x *res, adapter string) {
+	specs := []adapt.TableSpec{mon.SpecHashOnly("tba19r"), mon.SpecHashRange("tbb19r")}
+	names := []string{specs[0].Name, specs[1].Name}
+	for _, fail := range []string{"internal_server", "deprecated"} {
+		for _, n := range []int{1, 3, 12, 24} {
+			for _, ntab := range []int{1, 2} {
+				cl, _, ds := freshClient(adapter, specs...)
+				twin, _, _ := freshClient(adapter, specs...)
+				if ds != nil {
+					return
+				}
+				keys := mon.KeyLog{}
+				old := val.Item{"h": val.Str("old")}
+				keys.Add(specs[0].Name, old)
+				for _, c := range []adapt.Client{cl, twin} {
+					c.Do(adapt.Op{Kind: adapt.OpPut, Table: specs[0].Name, Item: val.Item{"h": val.Str("old"), "v": val.Num("0")}})
+				}
+				batch := []adapt.BatchEntry{{Table: specs[0].Name, Del: old}}
+				for i := 0; i < n; i++ {
+					s := specs[i%ntab]
+					it := val.Item{"h": val.Str(fmt.Sprint("k", i)), "v": val.Num(fmt.Sprint(i))}
+					key := val.Item{"h": it["h"]}
+					if s.Range != "" {
+						it["r"], key["r"] = val.Str("1"), val.Str("1")
+					}
+					keys.Add(s.Name, key)
+					batch = append(batch, adapt.BatchEntry{Table: s.Name, Put: it})
+				}
+				before := mon.Snapshot(twin, names, keys)
+				cl.Do(adapt.Op{Kind: adapt.OpEmulate, Fail: fail})
+				got := cl.Do(adapt.Op{Kind: adapt.OpBatchWrite, Batch: batch, ResendUnprocessed: true})
+				cl.Do(adapt.Op{Kind: adapt.OpEmulate, Fail: "none"})
+				cl.Do(adapt.Op{Kind: adapt.OpForceOff})
+				x.r.Evals += 2 + len(batch)
+				x.r.Counters["retries_of_the_unprocessed_items_of_a_response"]++
+				x.fp(true, "%s|retry-unprocessed|%s|%d|%d", adapter, fail, n, ntab)
+				wit := map[string]interface{}{"adapter": adapter, "failure": fail, "batch": batch, "outcome": got}
+				after := mon.Snapshot(cl, names, keys)
+				switch {
+				case got.Class == adapt.ClsRuntime:
+					x.viol("runtime-panic", got.Site, fmt.Sprintf("[%s] resending the UnprocessedItems of a response: panic %s", adapter, got.Msg), wit)
+				case got.Class != adapt.ClsOK:
+					// the first call failed as a whole: nothing was handed back, nothing may be applied
+					if after != before {
+						x.viol("failed-batch-left-trace", "batchwrite/"+fail, fmt.Sprintf("[%s] BatchWriteItem failed (%s) while %s was emulated but changed the tables\n--- before\n%s--- after\n%s", adapter, got.Class, fail, before, after), wit)
+					}
+				case len(got.Unproc) == 0:
+					for _, e := range batch {
+						if e.Put != nil {
+							twin.Do(adapt.Op{Kind: adapt.OpPut, Table: e.Table, Item: e.Put})
+						} else {
+							twin.Do(adapt.Op{Kind: adapt.OpDelete, Table: e.Table, Key: e.Del})
+						}
+					}
+					if want := mon.Snapshot(twin, names, keys); after != want {
+						x.viol("batch-differs-from-singles", "batchwrite/resent-unprocessed-items", fmt.Sprintf("[%s] the UnprocessedItems of a BatchWriteItem answered while %s was emulated, sent again as they came once the failure was over: success, nothing unprocessed - but the tables differ from the same requests one by one\n--- batch\n%s--- singles\n%s", adapter, fail, after, want), wit)
+					}
+				default:
+					x.r.Counters["retries_still_unprocessed"]++
+				}
+			}
+		}
+	}
+}
